@@ -14,6 +14,7 @@ from pathlib import Path
 
 sys.path.insert(0, str(Path(__file__).resolve().parents[1] / 'sched'))
 from prop import SchedProp  # noqa: E402
+from core import Infra  # noqa: E402
 import gen as sgen  # noqa: E402
 
 L = {'op': 'loop'}
@@ -222,6 +223,22 @@ class MsgProp(SchedProp):
 
     def corpus(self):
         return []
+
+    def skip_case(self, inp, raw):
+        # generated flow.cylc files that cylc rejects at load time are skipped (SchedProp); the fixed workflows of
+        # the component enumeration and of the findings always load, and a machine too loaded to start
+        # schedulers must not silently shrink the check: infrastructure failure, never a verdict
+        skipped = super().skip_case(inp, raw)
+        self.seen_total = getattr(self, 'seen_total', 0) + 1
+        if skipped:
+            self.seen_rejected = getattr(self, 'seen_rejected', 0) + 1
+            if inp.get('kind') in ('comp', 'witness'):
+                raise Infra(f'the fixed workflow of case {inp.get("id")} did not load: '
+                            f'{raw.get("error", "").strip().splitlines()[-1][:200]}')
+            # about 1 in 25 generated workflows is rejected by cylc (e.g. an offset trigger on a one-off task)
+            if self.seen_rejected >= 8 and self.seen_rejected > 0.2 * self.seen_total:
+                raise Infra(f'{self.seen_rejected} of {self.seen_total} workflows did not load')
+        return skipped
 
     def gen(self, tier, rng):
         yield from comp_cases(tier, rng)
